@@ -106,6 +106,7 @@ EXT_POOL = [
     "M205 X8 Y8", "M205 J0.02", "M73 P25 R40", "M73 P50", "G4 P100", "G4 S1", "M900 K0.2", "T0",
     "M104 S210", "M140 S60", "M220 S100", "M221 S95", "M400", "G29", "M114", "M82.5",
     "G10 P1 L2 X0.5", "G10 L2 P1 X0 Y0",      # tool / workspace offsets: not retractions (P or L present), passed through
+    "M204 S.5", "M205 X-.25 Y5.", "M73 P+7 R007", "M900 K.08",
 ]
 
 
@@ -177,7 +178,7 @@ def one_op(p, inner=False):
         if p.get("stress"):
             parts += [(6, st.tuples(st.just("stress"),
                                     st.sampled_from(["roundoff", "roundoff", "tiny_e", "tiny_e", "huge_xy", "huger_xy", "tiny_xy", "inch_feed",
-                                                     "tiny_merge", "huge_merge", "tiny_z", "leave_far", "tiny_base", "tiny_base"]),
+                                                     "tiny_merge", "huge_merge", "tiny_z", "leave_far", "tiny_base", "tiny_base", "spelled_merge"]),
                                     st.integers(1, 9), st.integers(0, 8)))]
         if not inner and p.get("visits", True):
             parts += [(4, op_visit(p))]
@@ -566,6 +567,10 @@ class Renderer(object):  # pylint: disable=too-many-instance-attributes
         elif what == "tiny_merge":
             # (n == 9: exactly zero - a legal value that careless formatting code drops)
             self.g(["M204 S%s", "M205 X%s", "M73 P%s"][m % 3] % (fmt(n * 1e-7, 9) if n != 9 else "0"))
+        elif what == "spelled_merge":
+            # legal spellings a careless number pattern mis-reads: no leading zero, trailing point, explicit plus, leading zeros
+            self.g(["M204 S%s", "M205 X%s", "M73 P%s", "M204 T%s P%s"][m % 4].replace("%s P%s", "%s P" + ["5.", ".5"][n % 2])
+                   % [".08", "-.35", "5.", "+7", "007", "-.5", "+.25", "0.", "-0"][n % 9])
         elif what == "huge_merge":
             self.g(["M204 T%s", "M205 J%s", "M73 R%s"][m % 3] % ("%d" % (n * 10 ** (16 + m))))
 
